@@ -203,6 +203,14 @@ var textbook = []tb{
 		[][]string{{"S", "A", "B", "c"}, {"A", "a"}, {"A"}, {"B", "b"}, {"B"}}},
 	{"lalr-not-slr-3", []string{"a", "b", "c"}, []string{"S", "X", "Y"},
 		[][]string{{"S", "X", "a"}, {"S", "b", "X", "c"}, {"S", "Y", "c"}, {"S", "b", "Y", "a"}, {"X", "Y"}, {"Y", "b", "b"}}},
+	// two nonterminals with the same handle, told apart only by exact lookahead;
+	// an over-approximated lookahead creates a spurious reduce/reduce conflict
+	{"same-handle", []string{"x", "d", "e"}, []string{"S", "A", "Y", "C"},
+		[][]string{{"S", "A", "C", "e"}, {"S", "Y", "e"}, {"A", "x"}, {"Y", "x"}, {"C", "d"}}},
+	{"same-handle-nullable", []string{"x", "b", "y"}, []string{"S", "I", "O", "J"},
+		[][]string{{"S", "I", "O", "x"}, {"S", "J", "y"}, {"I", "b"}, {"J", "b"}, {"O"}, {"O", "b"}}},
+	{"decl-vs-expr", []string{"i", "n", ";", "="}, []string{"P", "D", "E", "T", "V", "N"},
+		[][]string{{"P", "D"}, {"P", "E"}, {"D", "T", "N", ";"}, {"E", "V", ";"}, {"E", "V", "=", "V", ";"}, {"T", "i"}, {"V", "i"}, {"N", "n"}}},
 	{"dangling-else", []string{"i", "e", "x"}, []string{"S"},
 		[][]string{{"S", "i", "S"}, {"S", "i", "S", "e", "S"}, {"S", "x"}}},
 	{"ambiguous-expr", []string{"+", "*", "n"}, []string{"E"},
@@ -429,4 +437,80 @@ func WithPrec(t *rapid.T, s *Spec) {
 		}
 	}
 	s.fixUse()
+}
+
+// SameHandle builds a grammar in which 2-3 nonterminals share one handle and
+// are distinguished by what follows them (a terminal, or a nonterminal -
+// nullable or not - and then a terminal), optionally after distinct prefixes.
+// Whether the result is LALR(1) is decided by the reference.
+func SameHandle(t *rapid.T) *Spec {
+	s := base()
+	addT := func() int {
+		s.Terms = append(s.Terms, Term{Name: fmt.Sprintf("T%d", len(s.Terms)), Decl: "token"})
+		return len(s.Terms) - 1
+	}
+	type pend struct {
+		lhs int
+		rhs []interface{}
+	}
+	var rules []pend
+	addN := func(name string) int {
+		s.NTs = append(s.NTs, NonTerm{Name: name})
+		return len(s.NTs) - 1
+	}
+	type ntr int
+	start := addN("s")
+	k := rapid.IntRange(2, 3).Draw(t, "k")
+	hl := rapid.IntRange(1, 2).Draw(t, "handlelen")
+	var handle []interface{}
+	for i := 0; i < hl; i++ {
+		handle = append(handle, addT())
+	}
+	shared := addT() // a terminal that may follow several of them
+	for i := 0; i < k; i++ {
+		a := addN(fmt.Sprintf("a%d", i))
+		rules = append(rules, pend{a, handle})
+		var rhs []interface{}
+		if rapid.IntRange(0, 2).Draw(t, "prefix") == 0 {
+			rhs = append(rhs, addT())
+		}
+		rhs = append(rhs, ntr(a))
+		switch rapid.IntRange(0, 3).Draw(t, "follow") {
+		case 0:
+			rhs = append(rhs, addT())
+		case 1:
+			c := addN(fmt.Sprintf("c%d", i))
+			rules = append(rules, pend{c, []interface{}{addT()}})
+			rhs = append(rhs, ntr(c), shared)
+		case 2:
+			o := addN(fmt.Sprintf("o%d", i))
+			rules = append(rules, pend{o, nil})
+			rules = append(rules, pend{o, []interface{}{addT()}})
+			rhs = append(rhs, ntr(o), addT())
+		default:
+			rhs = append(rhs, shared)
+		}
+		rules = append(rules, pend{start, rhs})
+	}
+	nt := len(s.Terms)
+	for _, r := range rules {
+		ru := Rule{LHS: r.lhs, Prec: -1}
+		for _, x := range r.rhs {
+			switch v := x.(type) {
+			case int:
+				ru.RHS = append(ru.RHS, v)
+			case ntr:
+				ru.RHS = append(ru.RHS, nt+int(v))
+			}
+		}
+		s.Rules = append(s.Rules, ru)
+	}
+	perm := rapid.Permutation(seq(len(s.Rules))).Draw(t, "perm")
+	out := make([]Rule, len(s.Rules))
+	for i, p := range perm {
+		out[i] = s.Rules[p]
+	}
+	s.Rules = out
+	s.Start = start
+	return s
 }
